@@ -656,9 +656,11 @@ fn pzoo_shard(ctx: &Ctx, pz: &'static IfaceDesc, shard: usize, shards: usize) ->
                 }
             }
         }
-        if lits.len() > 10 && lits.iter().any(|l| l.text.contains(&b'\n')) {
-            // more than MAX_ARGS parameters is a syntax-level fault; combined with a newline
-            // inside a payload it is outside every property's premise
+        let syntax_level = lits.len() > 10 || lits.iter().any(|l| matches!(l.k, K::StrDoubled(_)));
+        if syntax_level && lits.iter().any(|l| l.text.contains(&b'\n')) {
+            // more than MAX_ARGS parameters, or a doubled quote the parser may refuse, is a
+            // syntax-level fault; combined with a newline inside a payload (where the discard of
+            // the faulty message legitimately stops) it is outside every property's premise
             continue;
         }
         let input = render(cmd, &lits);
